@@ -205,7 +205,7 @@ def aspectsOf : String → List Aspect
   | "C11" => [.attrs, .sigs]
   | "C12" => [.sigs, .bodies, .attrs]
   | "C13" => [.vis]
-  | "C14" => [.bodies, .header, .attrs]
+  | "C14" => [.bodies, .header, .attrs, .sigs]
   | "C16" => [.sigs]
   | "C18" => [.attrs, .memberAttrs, .sigs]
   | "C19" => [.header, .attrs, .bodies, .sigs]
@@ -256,7 +256,7 @@ def evalAll (v : Variant) (attr : Toks) (item : Item) (input : Toks) (m : Outcom
           row "C11" (P_C11 v attr item),
           row "C12" (P_C12 v attr item),
           row "C13" (P_C13 attr item),
-          row "C14" (P_C14 attr item),
+          row "C14" (P_C14_full v attr item),
           row "C16" (P_C16 v attr item),
           row "C18" (P_C18 item),
           row "C19" (P_C19 attr item) ]
